@@ -166,7 +166,7 @@ def roots_and_depth(ctx, rule, f, ext, seq_calls, ext_calls, kernel_names):
             # the same in nested form: the search sits under `if not <unreachable>`: every guard of the call (inside the
             # loop) is the negation of an unreachability test; an iteration that gets past that `if` without searching is harmless
             gfacts = C.facts_at(c, stop=loop)
-            if gfacts and all((not pol) and _unreachability_test(fi, e, True) for e, pol in gfacts):
+            if gfacts and all(_unreachability_test(fi, e, not pol) for e, pol in gfacts):
                 p_ = C.parent(fcfg.node_of(c))
                 while p_ is not None and p_ is not loop:
                     if isinstance(p_, ast.If):
